@@ -389,7 +389,15 @@ def parse_facebook_url(url, allow_relative_urls=False):
             return None
 
         parent_id_or_handle = parts[0]
-        album_id = parts[2].replace("a.", "")
+        album_id = parts[2]
+
+        # NOTE: only the "a." prefix is not part of the album id
+        if album_id.startswith("a."):
+            album_id = album_id[2:]
+
+        if not album_id:
+            return None
+
         photo_id = parts[3]
 
         if is_facebook_id(parent_id_or_handle):
